@@ -238,7 +238,7 @@ def make_late(i, kw):
 
 
 FAULTS = ["missing-der", "missing-pval", "DT-in-ode", "foreign-symbol-in-ode", "unknown-grid", "foreign-symbol-in-constraint", "foreign-symbol-in-objective",
-          "signal-objective", "vector-objective", "set_value-on-state", "set_initial-on-parameter", "set_initial-on-unknown", "constant-false",
+          "signal-objective", "vector-objective", "set_value-on-state", "set_value-on-variable", "set_initial-on-parameter", "set_initial-on-unknown", "constant-false",
           "parameter-only-constraint", "roots-with-shooting", "der-of-control", "algebraic-with-explicit-scheme"]
 
 
@@ -250,6 +250,7 @@ def make_fault(i, kw):
     for f in FAULTS:
         if f == "missing-pval" and not n_par: continue
         if f == "set_initial-on-parameter" and not n_par: continue
+        if f == "set_value-on-variable" and not any(kw["variables"].get(k) for k in ("", "control", "control+")): continue
         if f == "parameter-only-constraint" and not kw["params"].get(""): continue
         if f == "DT-in-ode" and kw.get("discrete"): continue
         if f == "roots-with-shooting" and kw["method"] == "DC": continue
